@@ -38,7 +38,7 @@ package rib
 //@ ensures[answered-or-held] result2 == nil && ni != "" ==> (exists i in 0..len(result0) :: result0[i].ID == op.GetId())
 //@    || (exists i in 0..len(result1) :: result1[i].ID == op.GetId()) || op.GetId() in dom(r.pendingEntries)
 //@ assigns ribState, spawned, hookCount
-//@ props C01 C02 C06 C12:safety
+//@ props C01 C02 C06 C12:safety C12:ensures#fatal
 
 //@ unit RIB.DeleteEntry
 //@ requires holdersWF(r) && pendingWF(r) && ribQuiet(r) && unixTS != nil && (op != nil ==> opWF(op))
@@ -53,7 +53,7 @@ package rib
 //@ loop 1 at "range originalNHG.NextHop" invariant holdersWF(r) && registered(r, niR) && opRemoved(niR, op) && removed && originalNHG != nil
 //@ loop 1 invariant dom(r.pendingEntries) == old(dom(r.pendingEntries)) && pendingWF(r)
 //@ assigns ribState, spawned, hookCount
-//@ props C01 C03 C06 C12:safety
+//@ props C01 C03 C06 C12:safety C12:ensures#own-id-fail C12:ensures#held-untouched
 
 //@ unit RIB.KnownNetworkInstances
 //@ requires r != nil
@@ -420,7 +420,7 @@ package rib
 //@ loop 1 invariant e != nil && holderWF(r) && e.GetPrefix() in dom(r.r.Afts.Ipv4Entry) && r.r.Afts.Ipv4Entry[e.GetPrefix()] != nil && fresh(r.r.Afts.Ipv4Entry[e.GetPrefix()]) && othersKept_v4(r.r.Afts, e.GetPrefix())
 //@ loop 1 invariant fromProto_v4(r.r.Afts.Ipv4Entry[e.GetPrefix()], e) && candOnly_v4(nr.Afts, e.GetPrefix()) && nr != nil && nr.Afts != nil && r.postChangeHook != nil
 //@ assigns r.r.Afts.Ipv4Entry, contents(r.r.Afts.Ipv4Entry), hookCount
-//@ props C01 C02 C16 C12:safety
+//@ props C01 C02 C16 C12:safety C12:ensures#nil C12:ensures#err-not-installed C12:ensures#no-trace
 
 //@ unit RIBHolder.AddIPv6
 //@ requires holderWF(r) && unixTS != nil
@@ -437,7 +437,7 @@ package rib
 //@ loop 1 invariant e != nil && holderWF(r) && e.GetPrefix() in dom(r.r.Afts.Ipv6Entry) && r.r.Afts.Ipv6Entry[e.GetPrefix()] != nil && fresh(r.r.Afts.Ipv6Entry[e.GetPrefix()]) && othersKept_v6(r.r.Afts, e.GetPrefix())
 //@ loop 1 invariant fromProto_v6(r.r.Afts.Ipv6Entry[e.GetPrefix()], e) && candOnly_v6(nr.Afts, e.GetPrefix()) && nr != nil && nr.Afts != nil && r.postChangeHook != nil
 //@ assigns r.r.Afts.Ipv6Entry, contents(r.r.Afts.Ipv6Entry), hookCount
-//@ props C01 C02 C16 C12:safety
+//@ props C01 C02 C16 C12:safety C12:ensures#nil C12:ensures#err-not-installed C12:ensures#no-trace
 
 //@ unit RIBHolder.AddMPLS
 //@ requires holderWF(r) && unixTS != nil
@@ -455,7 +455,7 @@ package rib
 //@ loop 1 invariant e != nil && holderWF(r) && boxed(aft.UnionUint32, e.GetLabelUint64()) in dom(r.r.Afts.LabelEntry) && r.r.Afts.LabelEntry[boxed(aft.UnionUint32, e.GetLabelUint64())] != nil && fresh(r.r.Afts.LabelEntry[boxed(aft.UnionUint32, e.GetLabelUint64())]) && othersKept_mpls(r.r.Afts, boxed(aft.UnionUint32, e.GetLabelUint64()))
 //@ loop 1 invariant fromProto_mpls(r.r.Afts.LabelEntry[boxed(aft.UnionUint32, e.GetLabelUint64())], e) && candOnly_mpls(nr.Afts, boxed(aft.UnionUint32, e.GetLabelUint64())) && nr != nil && nr.Afts != nil && r.postChangeHook != nil
 //@ assigns r.r.Afts.LabelEntry, contents(r.r.Afts.LabelEntry), hookCount
-//@ props C01 C02 C16 C12:safety
+//@ props C01 C02 C16 C12:safety C12:ensures#nil C12:ensures#err-not-installed C12:ensures#no-trace
 
 //@ unit RIBHolder.AddNextHopGroup
 //@ requires holderWF(r) && unixTS != nil
@@ -473,7 +473,7 @@ package rib
 //@ loop 1 invariant e.GetNextHopGroup() != nil && fromProto_nhg(r.r.Afts.NextHopGroup[e.GetId()], e) && candOnly_nhg(nr.Afts, e.GetId()) && nr != nil && nr.Afts != nil && r.postChangeHook != nil
 //@ loop 1 invariant groupWF(nr.Afts.NextHopGroup[e.GetId()])
 //@ assigns r.r.Afts.NextHopGroup, contents(r.r.Afts.NextHopGroup), hookCount
-//@ props C01 C02 C16 C12:safety
+//@ props C01 C02 C16 C12:safety C12:ensures#nil C12:ensures#err-not-installed C12:ensures#no-trace
 
 //@ unit RIBHolder.AddNextHop
 //@ requires holderWF(r) && unixTS != nil
@@ -490,7 +490,7 @@ package rib
 //@ loop 1 invariant e != nil && holderWF(r) && e.GetIndex() in dom(r.r.Afts.NextHop) && r.r.Afts.NextHop[e.GetIndex()] != nil && fresh(r.r.Afts.NextHop[e.GetIndex()]) && othersKept_nh(r.r.Afts, e.GetIndex())
 //@ loop 1 invariant fromProto_nh(r.r.Afts.NextHop[e.GetIndex()], e) && candOnly_nh(nr.Afts, e.GetIndex()) && nr != nil && nr.Afts != nil && r.postChangeHook != nil
 //@ assigns r.r.Afts.NextHop, contents(r.r.Afts.NextHop), hookCount
-//@ props C01 C02 C16 C12:safety
+//@ props C01 C02 C16 C12:safety C12:ensures#nil C12:ensures#err-not-installed C12:ensures#no-trace
 
 //@ unit RIBHolder.DeleteIPv4
 //@ requires holderWF(r) && unixTS != nil
@@ -502,7 +502,7 @@ package rib
 //@ ensures[hook] result0 ==> hookCount == old(hookCount) + ite(old(r.postChangeHook) != nil, 1, 0)
 //@ ensures[wf] holderWF(r)
 //@ assigns r.r.Afts.Ipv4Entry[e.GetPrefix()], hookCount
-//@ props C01 C03 C16 C12:safety
+//@ props C01 C03 C16 C12:safety C12:ensures#nil C12:ensures#err-not-removed C12:ensures#no-trace
 
 //@ unit RIBHolder.DeleteIPv6
 //@ requires holderWF(r) && unixTS != nil
@@ -514,7 +514,7 @@ package rib
 //@ ensures[hook] result0 ==> hookCount == old(hookCount) + ite(old(r.postChangeHook) != nil, 1, 0)
 //@ ensures[wf] holderWF(r)
 //@ assigns r.r.Afts.Ipv6Entry[e.GetPrefix()], hookCount
-//@ props C01 C03 C16 C12:safety
+//@ props C01 C03 C16 C12:safety C12:ensures#nil C12:ensures#err-not-removed C12:ensures#no-trace
 
 //@ unit RIBHolder.DeleteMPLS
 //@ requires holderWF(r) && unixTS != nil
@@ -528,7 +528,7 @@ package rib
 //@ ensures[hook] result0 ==> hookCount == old(hookCount) + ite(old(r.postChangeHook) != nil, 1, 0)
 //@ ensures[wf] holderWF(r)
 //@ assigns r.r.Afts.LabelEntry[boxed(aft.UnionUint32, wrap32(e.GetLabelUint64()))], hookCount
-//@ props C01 C03 C16 C12:safety
+//@ props C01 C03 C16 C12:safety C12:ensures#nil C12:ensures#err-not-removed C12:ensures#no-trace
 
 //@ unit RIBHolder.DeleteNextHopGroup
 //@ requires holderWF(r) && unixTS != nil
@@ -540,7 +540,7 @@ package rib
 //@ ensures[hook] result0 ==> hookCount == old(hookCount) + ite(old(r.postChangeHook) != nil, 1, 0)
 //@ ensures[wf] holderWF(r)
 //@ assigns r.r.Afts.NextHopGroup[e.GetId()], hookCount
-//@ props C01 C03 C16 C12:safety
+//@ props C01 C03 C16 C12:safety C12:ensures#nil C12:ensures#err-not-removed C12:ensures#no-trace
 
 //@ unit RIBHolder.DeleteNextHop
 //@ requires holderWF(r) && unixTS != nil
@@ -552,7 +552,7 @@ package rib
 //@ ensures[hook] result0 ==> hookCount == old(hookCount) + ite(old(r.postChangeHook) != nil, 1, 0)
 //@ ensures[wf] holderWF(r)
 //@ assigns r.r.Afts.NextHop[e.GetIndex()], hookCount
-//@ props C01 C03 C16 C12:safety
+//@ props C01 C03 C16 C12:safety C12:ensures#nil C12:ensures#err-not-removed C12:ensures#no-trace
 
 //@ pred oneofOK(x Iface) = tagof(x) != 0 ==> payload(x) != 0
 
@@ -678,7 +678,7 @@ package rib
 //@ loop 1 at "range g.NextHop" invariant forall j in visited :: j in dom(g.NextHop) ==> nhInstalled(niRIB, j)
 //@ loop 1 invariant holdersWF(r) && candWF(caft) && g != nil && niRIB != nil && holderWF(niRIB) && !(0 in visited)
 //@ assigns nothing
-//@ props C02 C12:safety
+//@ props C02 C12:safety C12:ensures#unknown-ni C12:ensures#nhg-fatal C12:ensures#v4-fatal C12:ensures#v6-fatal C12:ensures#mpls-fatal C12:ensures#err-means-no
 
 //@ unit RIB.canDelete
 //@ requires holdersWF(r) && deletionCandidate != nil && deletionCandidate.Afts != nil && candWF(deletionCandidate.Afts)
@@ -693,13 +693,13 @@ package rib
 //@ ensures[zero-id] (candOnly_nhg(deletionCandidate.Afts, 0) || candOnly_nh(deletionCandidate.Afts, 0)) && homeNI(r, netInst) in dom(r.niRIB) ==> result1 != nil && !result0
 //@ ensures[err-means-no] result1 != nil ==> !result0
 //@ assigns nothing
-//@ props C03 C12:safety
+//@ props C03 C12:safety C12:ensures#unknown-ni
 
 //@ unit RIB.checkFn
 //@ requires holdersWF(r) && candidate != nil && candidate.Afts != nil && candWF(candidate.Afts)
 //@ ensures[unknown-op] t != constants.Add && t != constants.Delete ==> result1 != nil && !result0
 //@ assigns nothing
-//@ props C02 C03 C12:safety
+//@ props C02 C03 C12:safety C12:ensures#unknown-op
 
 // ---- reference counters (C03) ----
 //@ unit isNil
@@ -841,7 +841,7 @@ package rib
 //@ loop 1 invariant (exists i in old(len(*oks))..len(*oks) :: (*oks)[i].ID == op.GetId()) && oks != nil && fails != nil && installStack != nil && opWF(op)
 //@ loop 1 invariant forall j in 0..len(ranged) :: ranged[j] != nil && opWF(ranged[j].op) && ranged[j].op.GetId() in old(dom(r.pendingEntries)) && ranged[j].ni == ranged[j].op.GetNetworkInstance()
 //@ assigns ribState, *oks, *fails, contents(installStack), spawned, hookCount
-//@ props C01 C02 C06 C12:safety
+//@ props C01 C02 C06 C12:safety C12:ensures#fatal-unknown-ni C12:ensures#answered-or-held
 
 // ---- construction and hooks (C16) ----
 // hookInv: every network instance notifies through the hook last given to SetPostChangeHook,
